@@ -1,5 +1,6 @@
 import Scion.Model.Select
 import Scion.Proofs.Select
+import Scion.Gen.Beacon
 /-!
 # C26 — Beacon selection returns the shortest beacons plus the most diverse one
 
@@ -202,6 +203,14 @@ theorem select_length (k : Int) (bs r : List Beacon) (h : select k bs = some r) 
       cases h
       simp only [List.length_append, List.length_take, List.length_singleton]
       omega
+
+/-- regenerated facts: with the default policy (`BestSetSize` 20 of up to `CandidateSetSize` 100
+candidates) the selection runs in the `2 ≤ k` regime of `select_shape`, and the initial `minLen`
+of `selectMostDiverse` is `math.MaxUint16` -/
+theorem gen_consts :
+    2 ≤ Scion.Gen.Beacon.DefaultBestSetSize ∧
+    Scion.Gen.Beacon.DefaultBestSetSize ≤ Scion.Gen.Beacon.DefaultCandidateSetSize ∧
+    maxUint16 = 2 ^ 16 - 1 := by decide
 
 /-! ### non-vacuity -/
 
